@@ -35,7 +35,8 @@ program *before* any code is generated, in the ORDER in which the real code deci
    since fix 4509942, on a clone: they are NOT added to the grounded variables; formerly `c(y), agg m = min(y) in a(y)`
    was accepted — finding FM2), then the shadowing test of its pattern, then `prog_get_relation`;
    then `AscentConfig::new` (program attributes), then the
-   declarations (`get_ds_attr`, "`lattice`s cannot have custom data structure providers"), then the
+   declarations that survive `dedup_all_keep_last_by` (an identical re-declaration replaces the earlier copies:
+   `Summary.effDecls`), in order (`get_ds_attr`, "`lattice`s cannot have custom data structure providers"), then the
    struct / impl signatures ("the identifiers of struct and impl must match", "the generic parameters of
    struct (..) and impl (..) must match": since fix dfbe0be; formerly two `assert_eq!` of `compile_mir`
    that came AFTER the stratification test — finding FM6);
@@ -225,6 +226,24 @@ structure Summary where
 deriving Repr
 
 def Summary.decls (s : Summary) : List Decl := s.items.filterMap fun | .rel d => some d | _ => none
+
+/-- `RelationIdentity::eq` (ascent_hir.rs: name, `field_types`, `is_lattice`).  The model records arities, not
+column types; the generator re-declares a relation with identical column types only, so on the programs of the
+tie "same arity" and "same column types" coincide. -/
+def Decl.sameIdentity (d e : Decl) : Bool := d.name == e.name && d.arity == e.arity && d.lat == e.lat
+
+/-- `dedup_all_keep_last_by(&mut rel_identities, RelationIdentity::eq)` (utils.rs): every declaration that has a
+LATER declaration with the same identity is removed; the survivors keep their order.  (The real loop goes from the
+last element down and marks the earlier equals of every unmarked element; identity is an equivalence, so exactly the
+elements with a later equal get marked.) -/
+def dedupKeepLast : List Decl → List Decl
+  | [] => []
+  | d :: rest => if rest.any (fun e => d.sameIdentity e) then dedupKeepLast rest else d :: dedupKeepLast rest
+
+/-- the declarations `compile_ascent_program_to_hir` loops over: an identical re-declaration REPLACES the earlier
+copies, the last copy is THE declaration of the relation (its attributes count, the attributes of the replaced
+copies are never looked at) -/
+def Summary.effDecls (s : Summary) : List Decl := dedupKeepLast s.decls
 def Summary.macros (s : Summary) : List MacroDef := s.items.filterMap fun | .mac _ d => some d | _ => none
 def Summary.rules (s : Summary) : List Rule := s.items.filterMap fun | .rule _ r => some r | _ => none
 
@@ -574,8 +593,11 @@ def configCheck (as : List AttrS) (parallel : Bool) : Except Err Unit :=
       | .error e => .error e
       | .ok _ => .ok ()
 
-/-- the loop over the declarations in `compile_ascent_program_to_hir` (identical re-declarations, which
-`dedup_all_keep_last_by` removes, are not modelled: the generator never emits them) -/
+/-- the loop over the declarations in `compile_ascent_program_to_hir`: `get_ds_attr` (two `ds` attributes, a `ds`
+attribute that is not a list) and "`lattice`s cannot have custom data structure providers", declaration by declaration
+up to the first error.  The real loop runs AFTER `dedup_all_keep_last_by`: `compile` calls this function with
+`Summary.effDecls`, so a declaration replaced by a later identical one is never tested (`#[ds(..)] lattice l(..);
+lattice l(..);` is accepted, `relation r(..); relation r(..); #[ds(..)] lattice l(..);` is rejected for `l`). -/
 def declsCheck : List Decl → Except Err Unit
   | [] => .ok ()
   | d :: rest =>
@@ -627,7 +649,14 @@ def sigCheck (sig : Option Sig) : Except Err Unit :=
 /-! ## The pipeline -/
 
 /-- `ascent_impl` after parsing: `desugar_ascent_program`, `compile_ascent_program_to_hir` (rules, program
-attributes, declarations, signatures), `compile_hir_to_mir` (stratification); code generation decides nothing -/
+attributes, declarations, signatures), `compile_hir_to_mir` (stratification); code generation decides nothing.
+
+Re-declared relations: the rules are resolved against ALL declarations (`hirRules s.decls`, `skeleton s.decls`) —
+faithful: `prog_get_relation` is `prog.relations.iter().rev().find(|r| name == &r.name)` on the un-deduplicated
+`prog.relations`, by NAME only, i.e. `findDecl s.decls`.  (The last declaration of a name has no later declaration
+of the same identity, so it also survives the dedup: `findDecl s.decls n = findDecl s.effDecls n`; in the skeleton a
+replaced copy is one more relation that no rule mentions, `declIndex` points at the last copy, which does not change
+`stratError`.)  Only the declaration loop runs on the deduplicated list (`declsCheck s.effDecls`). -/
 def compile (s : Summary) : Except Err Unit :=
   match desugar s.macros s.rules with
   | .error e => .error e
@@ -638,7 +667,7 @@ def compile (s : Summary) : Except Err Unit :=
       match configCheck s.attrs s.kind.parallel with
       | .error e => .error e
       | .ok _ =>
-        match declsCheck s.decls with
+        match declsCheck s.effDecls with
         | .error e => .error e
         | .ok _ =>
           match sigCheck s.sig with
